@@ -7,8 +7,7 @@ PROP = "C01"
 LEVEL = "exploration"
 SHARDS = {"quick": 8, "thorough": 16}
 TIMEOUT = {"quick": 900, "thorough": 7200}
-REQUIRED = {"ckd_priv": 500, "ckd_priv_prf": 100, "prf_layout": 100, "derive_path": 50,
-            "probe.PrvKeyNode.ckd": 500, "ckd_state": 500}
+REQUIRED = {"ckd_priv": 500, "ckd_priv_prf": 100, "derive_path": 50}   # probe.* / ckd_state / prf_layout add observability, they are not required
 ANCHORS = ['bip32:PrvKeyNode.ckd', 'bip32:PubKeyNode.derive_path', 'bip32:PrvKeyNode.extended_private_key', 'bip32:PubKeyNode.extended_public_key', 'helper:hmac_sha512']
 RULE = ("seeded generator over (parent scalar class x chain-code class x depth x index class x "
         "construction form) with boundary corpora; PRF corners via chosen-output stub; distinct = "
@@ -34,20 +33,22 @@ def _mk_parent(case):
     """Parent objects are kept in a small pool and REUSED when the same parent recurs (case['reuse']), so that children
     lists, caches or any other state left by earlier derivations is present when the next one is judged."""
     xk = bridge.xkey_from_case(case)
+    vp = case.get("vpurpose", 44)      # SLIP-132 flavour of the serialisation the parent is parsed from (x/y/z, t/u/v)
     if not case.get("reuse"):
-        return xk, bridge.mk_node(xk, case["testnet"], case.get("form", "ctor"))
-    key = (case["k"], case["c"], case["depth"], case["pindex"], case["pfp"], case["testnet"], case.get("form", "ctor"))
+        return xk, bridge.mk_node(xk, case["testnet"], case.get("form", "ctor"), purpose=vp)
+    key = (case["k"], case["c"], case["depth"], case["pindex"], case["pfp"], case["testnet"], case.get("form", "ctor"), vp)
     if key not in _POOL:
         if len(_POOL) > 200:
             _POOL.clear()
-        _POOL[key] = bridge.mk_node(xk, case["testnet"], case.get("form", "ctor"))
+        _POOL[key] = bridge.mk_node(xk, case["testnet"], case.get("form", "ctor"), purpose=vp)
     return xk, _POOL[key]
 
 
 def _cls(case, extra=""):
-    return "%s|%s|d%s|%s|%s%s" % (case.get("ktag", "k"), case.get("ctag", "c"),
+    return "%s|%s|d%s|%s|%s%s%s" % (case.get("ktag", "k"), case.get("ctag", "c"),
                                   "0" if case["depth"] == 0 else ("hi" if case["depth"] > 127 else "lo"),
-                                  "hard" if case["index"] >= H else "norm", case.get("form", "ctor"), extra)
+                                  "hard" if case["index"] >= H else "norm", case.get("form", "ctor"),
+                                    "" if case.get("form", "ctor") == "ctor" else ":v%d" % case.get("vpurpose", 44), extra)
 
 
 def judge_ckd_priv(ctx, case):
@@ -160,11 +161,15 @@ def install_probes(ctx):
                   mech="C01.probe.ckd." + (bad[0][0] if bad else ""))
 
     def rec(name, ok, self, result, old):
+        if name.endswith("(observation)"):
+            k = "children_bookkeeping_" + ("as_before" if ok else "differs")
+            ctx.extra[k] = ctx.extra.get(k, 0) + 1
+            return
         ctx.judge("ckd_state", ok, None if ok else {"contract": name, "parent": bridge.node_obs(self)},
                   old, None, cls=name, mech="C01." + name)
 
-    probes.contract_ckd_state(inst, b32.PrvKeyNode, rec)
-    probes.observe_method(inst, b32.PrvKeyNode, "ckd", on_ckd)
+    probes.try_install(ctx, "icontract PrvKeyNode.ckd", probes.contract_ckd_state, inst, b32.PrvKeyNode, rec)
+    probes.try_install(ctx, "observe PrvKeyNode.ckd", probes.observe_method, inst, b32.PrvKeyNode, "ckd", on_ckd)
     return inst, state
 
 
@@ -177,7 +182,7 @@ def gen_parent(rnd, ctx=None):
             "pindex": 0 if d == 0 else gen.index(rnd)[1],
             "pfp": b"\x00" * 4 if d == 0 else gen.rbytes(rnd, 4),
             "testnet": rnd.random() < 0.5,
-            "form": rnd.choice(["ctor", "ctor", "str", "bytes", "stream"])}
+            "form": rnd.choice(["ctor", "ctor", "str", "bytes", "stream"]), "vpurpose": rnd.choice([44, 44, 49, 84])}
     return case
 
 
